@@ -22,12 +22,21 @@ def run(ctx):
         'corner = coolant total, duct edge + corner = duct total, bypass '
         'mirrors duct, pin-side incidence 6/5/5 per pin equals 3/2/1 per '
         'subchannel, and the pin-to-subchannel heat fractions of every pin '
-        'class sum to one']
+        'class sum to one',
+        'R4 (exact hexagon algebra, symbolic duct index, sqrt3^2 = 3) the '
+        'corner wall lengths satisfy the closed form F/(2 sqrt3) - P (n-1)/2 '
+        '(base case + inductive step of the recurrence over ducts), and with '
+        'it the cells tile the geometry for every ring count and every duct: '
+        'duct wall cells = their annulus, bypass cells = their annulus, '
+        'coolant cells + pins + wires = the hexagon inside the inner duct']
     ctx.not_decided += ['symmetry and neighbour counts of the run-time '
-                        'adjacency', 'area tiling identity', 'centroids']
+                        'adjacency', 'centroids']
     r1(ctx)
     r2(ctx)
-    r3(ctx)
+    counts = r3(ctx)
+    from . import _hexgeom
+    _hexgeom.check(ctx, 'C08.R4', counts)
+    ctx.min_instances('C08.R4', 9)
     ctx.min_instances('C08.R1', 8)
     ctx.min_instances('C08.R2', 2)
     ctx.min_instances('C08.R3', 7)
@@ -459,3 +468,4 @@ def r3(ctx):
                 'pin-to-subchannel fractions: interior pin 6 f0, edge pin '
                 '3 f0 + 2 f1, corner pin 2 f0 + 2 f1 + f2 must each be 1 '
                 '(table %s)' % (q,), key='dassh.region_rodded | q_p2sc sums')
+    return ci, ce, cc
